@@ -36,6 +36,8 @@ type Case struct {
 	Continue   string `json:"cont"` // "", "revert": after GC delete nothing, try --continue of the series (F2 end-to-end)
 	DropX      bool   `json:"dropx"` // revert scenario over a commit of a branch that is deleted before GC
 	Remote     bool   `json:"remote"`   // remote-tracking refs (push two branches to a file remote, fetch)
+	Window     bool   `json:"window"`   // commit landing between entering the collector and BeginGC (window.go)
+	PreGC      bool   `json:"pregc"`    // default gc first (history moves to the old generation), then re-target refs, then the gc under test
 	ConfBase   bool   `json:"confbase"` // committed conflicts whose base root-ish is a commit of a branch deleted before GC; dolt_conflicts_t is read after
 }
 
@@ -70,6 +72,12 @@ func fingerprint(e *util.Env) (map[string]string, error) {
 	br := s.Exec("select name, hash from dolt_branches order by name")
 	put("branches", br)
 	put("tags", s.Exec("select tag_name, tag_hash from dolt_tags order by tag_name"))
+	tg := s.Exec("select tag_name from dolt_tags order by tag_name")
+	for _, row := range tg.Rows {
+		name := strings.TrimPrefix(row[0], "s:")
+		put("tagdata:"+name, s.Exec(fmt.Sprintf("select * from u as of '%s'", name)))
+		put("taglog:"+name, s.Exec(fmt.Sprintf("select count(*) from dolt_log('%s')", name)))
+	}
 	put("stashes", s.Exec("select * from dolt_stashes"))
 	put("remote_branches", s.Exec("select name, hash from dolt_remote_branches order by name"))
 	put("remote_data", s.Exec("select * from t as of 'origin/other'"))
@@ -86,7 +94,7 @@ func fingerprint(e *util.Env) (map[string]string, error) {
 		for _, q := range []string{"select * from t", "select * from u", "select * from dolt_status", "select * from dolt_merge_status",
 			"select * from dolt_conflicts", "select * from dolt_conflicts_t", "select * from dolt_rebase", "select dolt_hashof_db()",
 			"select dolt_hashof_db('STAGED')", "select dolt_hashof_db('HEAD')", "select commit_hash, message from dolt_log",
-			"select * from dolt_diff_t", "select * from ch", "select count(*) from t where c1 > 0", "select * from w"} {
+			"select * from dolt_diff_t", "select * from ch", "select count(*) from t where c1 > 0", "select * from w", "select * from wd"} {
 			put(name+":"+q, bs.Exec(q))
 		}
 	}
@@ -99,6 +107,11 @@ func Run(raw json.RawMessage) (any, error) {
 		return nil, err
 	}
 	ctx := context.Background()
+	if c.Window {
+		obs := &Obs{Graph: [][]int{}, FpDiff: []string{}, ScriptErrs: []string{}}
+		err := RunWindow(ctx, c, obs)
+		return obs, err
+	}
 	e, err := util.NewEnv(true)
 	if err != nil {
 		return nil, err
@@ -146,6 +159,24 @@ func Run(raw json.RawMessage) (any, error) {
 				if r := c09.Exec(rs, q); r.Err != "" {
 					obs.ScriptErrs = append(obs.ScriptErrs, "remote: "+q+": "+r.Err)
 				}
+			}
+		}
+	}
+	if c.PreGC {
+		// history that ends up in the old generation and is afterwards reachable only from a tag / stash / working set
+		ps, _ := e.NewSession()
+		for _, q := range []string{"set @@autocommit = 1", "call dolt_checkout('-b','temp','main')", "insert into u values (600,600)", "call dolt_commit('-Am','temp 1')",
+			"insert into u values (601,601)", "call dolt_commit('-Am','temp 2')", "call dolt_tag('vtemp')",
+			"insert into u values (602,602)", "call dolt_stash('push','sttemp')",
+			"call dolt_checkout('main')", "call dolt_gc()"} {
+			if r := c09.Exec(ps, q); r.Err != "" && !c09.Tolerated(q, r.Err) {
+				obs.ScriptErrs = append(obs.ScriptErrs, "pregc: "+q+": "+r.Err)
+			}
+		}
+		ps2, _ := e.NewSession()
+		for _, q := range []string{"set @@autocommit = 1", "call dolt_checkout('main')", "call dolt_branch('-D','temp')"} {
+			if r := c09.Exec(ps2, q); r.Err != "" && !c09.Tolerated(q, r.Err) {
+				obs.ScriptErrs = append(obs.ScriptErrs, "pregc: "+q+": "+r.Err)
 			}
 		}
 	}
